@@ -18,6 +18,10 @@ def check_file(chk, p, r, pn):
         defined[x["name"]] = x["pos"]
     prod = {}
     for b in pn["builds"]:
+        if not b["outs"]:
+            # `build: RULE ...`: ninja refuses a build statement that names no output ("expected path")
+            chk.fail_oracle("graph:statement-without-output", f"a build statement using rule {b['rule']} names no output", {"project": p})
+            return
         if b["rule"] != "phony":
             if b["rule"] not in defined:
                 chk.fail_oracle("graph:undefined-rule", f"statement for {b['outs']} uses undefined rule {b['rule']}", {"project": p})
